@@ -136,3 +136,6 @@ Definition prefix_decl (nm : name) (d : decl) : decl :=
 Definition all_decls (sc : scall) : parser :=
   c_parser (s_parent sc) ++ map (prefix_decl (s_name sc)) (s_sub sc).
 
+
+Definition starts_with (nm : name) (k : tpath) : bool :=
+  match k with a :: _ => name_eqb a nm | [] => false end.
